@@ -492,7 +492,10 @@ def check_plan(ctx, plan):
             add(inv_a, iv)
         add(inv_b, added)
         if neg:
-            rep.viol("negative", "C02:negative_amount", "%s: negative reactant amounts after the step: %r" % (what, neg))
+            # amounts are "name repr(moles)"; a residue of the order of the rounding of the mole balances (|n| < 1e-12 mol) is told apart
+            # from a negative amount proper
+            vals = [abs(float(x.split()[-1])) for x in neg]
+            rep.viol("negative", "C02:negative_amount" + (":roundoff" if max(vals) < 1e-12 else ""), "%s: negative reactant amounts after the step: %r" % (what, neg))
             break
         rep.count("steps_checked")
         for kd in set(key[0] for key in dst):
